@@ -22,10 +22,13 @@ pub const K_EXHAUSTIVE: u8 = 8;
 pub const K_MIXED: u8 = 9;
 /// genuine NEW frames (the sender's true inputs the victim has not received yet) followed by a frame of the wrong size
 pub const K_GENUINE_TAIL: u8 = 10;
-pub const CLASS_NAMES: [&str; 11] = ["status-count", "negative-start", "random-payload", "wrong-frame-size", "unknown-address", "foreign-magic", "mutated-payload", "run-length-bomb", "exhaustive-payload<=2", "mixed", "genuine-new-frames-then-wrong-size"];
+/// a completely well-formed Input packet that CONTINUES the sender's stream (next frames, right sizes, encoded against the
+/// right reference, bogus values) but carries another session's magic number: the only thing wrong with it is the magic
+pub const K_FOREIGN_CONT: u8 = 11;
+pub const CLASS_NAMES: [&str; 12] = ["status-count", "negative-start", "random-payload", "wrong-frame-size", "unknown-address", "foreign-magic", "mutated-payload", "run-length-bomb", "exhaustive-payload<=2", "mixed", "genuine-new-frames-then-wrong-size", "foreign-magic-stream-continuation"];
 /// classes that are rejected before any processing: raw trace equality is demanded
 fn preprocessing_class(k: u8) -> bool {
-    matches!(k, K_STATUS | K_NEGSTART | K_UNKNOWN_ADDR | K_FOREIGN_MAGIC)
+    matches!(k, K_STATUS | K_NEGSTART | K_UNKNOWN_ADDR | K_FOREIGN_MAGIC | K_FOREIGN_CONT)
 }
 
 fn varint(mut vv: u64) -> Vec<u8> {
@@ -40,7 +43,7 @@ fn varint(mut vv: u64) -> Vec<u8> {
 
 pub struct InjState {
     pub n: u64,
-    pub by_class: [u64; 11],
+    pub by_class: [u64; 12],
     pub skipped_spoof_like: u64,
     pub no_base_packet: u64,
 }
@@ -72,7 +75,7 @@ pub fn inject_hook(core: &mut Core, ni: usize, t: u64, st: &mut InjState) {
     let mut r = core.inject_rng.fork(st.n);
     let mut class = inj.class;
     if class == K_MIXED {
-        class = r.pick(&[K_STATUS, K_NEGSTART, K_RANDOM, K_WRONGSIZE, K_UNKNOWN_ADDR, K_FOREIGN_MAGIC, K_MUTATED, K_BOMB, K_GENUINE_TAIL]);
+        class = r.pick(&[K_STATUS, K_NEGSTART, K_RANDOM, K_WRONGSIZE, K_UNKNOWN_ADDR, K_FOREIGN_MAGIC, K_MUTATED, K_BOMB, K_GENUINE_TAIL, K_FOREIGN_CONT]);
     }
     let (base_input, base_any) = {
         let net = core.net.borrow();
@@ -192,6 +195,44 @@ pub fn inject_hook(core: &mut Core, ni: usize, t: u64, st: &mut InjState) {
             }
             m.magic = m.magic.wrapping_add(1 + r.below(60_000) as u16);
             desc = format!("{} with foreign magic {:#x}", KIND_NAMES[kind(&m) as usize], m.magic);
+        }
+        K_FOREIGN_CONT => {
+            // the newest frame the victim holds from this sender: a player endpoint exposes it through the connection-status
+            // hook; for a spectator it is taken from the last genuine input packet the network handed over
+            let handles: Vec<usize> = if victim_is_spec { (0..np).collect() } else { core.scn.peers.get(from as usize - 1).cloned().unwrap_or_default() };
+            let Some(&h0) = handles.first() else { return };
+            let l = if victim_is_spec {
+                match &base_input {
+                    Some(WMsg { body: WBody::Input { start, bytes, .. }, .. }) => match ref_frame_lens(bytes) {
+                        Some(lens) if !lens.is_empty() => *start + lens.len() as i32 - 1,
+                        _ => { st.no_base_packet += 1; return; }
+                    },
+                    _ => { st.no_base_packet += 1; return; }
+                }
+            } else {
+                core.nodes[ni].fin.cs.get(h0).map(|c| c.1).unwrap_or(-1)
+            };
+            let reference = if l < 0 {
+                vec![0u8; right]
+            } else {
+                let mut b = Vec::with_capacity(right);
+                for h in &handles {
+                    match core.truth.get(*h, l) {
+                        Some(x) => b.extend_from_slice(&x.0.to_le_bytes()),
+                        None => { st.no_base_packet += 1; return; }
+                    }
+                }
+                b
+            };
+            let n_new = 1 + r.below(3) as usize;
+            let frames: Vec<Vec<u8>> = (0..n_new).map(|_| (0..right).map(|_| r.next() as u8 | 1).collect()).collect();
+            let new_bytes = vh::codec_encode(&reference, &frames);
+            if let WBody::Input { bytes, start, .. } = &mut m.body {
+                *bytes = new_bytes;
+                *start = l + 1;
+            }
+            m.magic = m.magic.wrapping_add(1 + r.below(60_000) as u16);
+            desc = format!("well-formed Input packet continuing the stream at frame {} with {n_new} bogus frame(s), foreign magic {:#x}", l + 1, m.magic);
         }
         K_GENUINE_TAIL => {
             // A packet whose first frames are the sender's TRUE inputs for frames the victim has not received yet (so they
@@ -361,7 +402,7 @@ fn base_running(r: &mut Rng, frames: i32) -> Scn {
 pub fn cases(ctx: &Ctx) -> Vec<Case> {
     let mut out = vec![];
     let mut r = Rng::new(ctx.seed ^ 0xC08);
-    let classes = [K_STATUS, K_NEGSTART, K_RANDOM, K_WRONGSIZE, K_UNKNOWN_ADDR, K_FOREIGN_MAGIC, K_MUTATED, K_BOMB, K_MIXED, K_GENUINE_TAIL];
+    let classes = [K_STATUS, K_NEGSTART, K_RANDOM, K_WRONGSIZE, K_UNKNOWN_ADDR, K_FOREIGN_MAGIC, K_MUTATED, K_BOMB, K_MIXED, K_GENUINE_TAIL, K_FOREIGN_CONT];
     // ---- Running state, clean and lossy links, victim = node 0, forged sender = node 1
     for i in 0..ctx.n(2500, 80_000) {
         let mut rr = r.fork(i as u64);
@@ -414,6 +455,23 @@ pub fn cases(ctx: &Ctx) -> Vec<Case> {
         let class = classes[i % classes.len()];
         s.inject = Some(Inject { victim, from_addr: peer_addr(0), p: rr.pick(&[0.2, 1.0]), after_ms: 1200, until_ms: 3700, class, exhaustive_from: None, synthesize: false, replay_genuine: false });
         out.push(Case { id: format!("tospectator-{}-{i}", CLASS_NAMES.get(class as usize).unwrap_or(&"mixed")), scn: s });
+    }
+    // ---- a spectator whose host died: the host's endpoint lingers in the Disconnected state, and a spectator session has
+    // no player bookkeeping that would mask what such an endpoint still lets through (added after round-6 seed C08)
+    for i in 0..ctx.n(500, 15_000) {
+        let mut rr = r.fork(0x4800_0000 + i as u64);
+        let mut s = gen_death2(&mut rr, 400);
+        s.kill.as_mut().unwrap().at_ms = rr.range(1500, 2200);
+        s.link = Link::clean(rr.pick(&[0u64, 10]));
+        s.notify_ms = 200;
+        s.timeout_ms = 400;
+        let mut sp = SpecCfg::new(1);
+        sp.catchup = rr.pick(&[1usize, 2]);
+        s.specs.push(sp);
+        let victim = s.peers.len();
+        let class = [K_FOREIGN_CONT, K_FOREIGN_MAGIC, K_FOREIGN_CONT, K_STATUS, K_NEGSTART, K_MUTATED, K_FOREIGN_CONT, K_WRONGSIZE, K_MIXED][i % 9];
+        s.inject = Some(Inject { victim, from_addr: peer_addr(1), p: 0.5, after_ms: 3000, until_ms: 100_000, class, exhaustive_from: None, synthesize: false, replay_genuine: true });
+        out.push(Case { id: format!("afterdisc-tospectator-{}-{i}", CLASS_NAMES.get(class as usize).unwrap_or(&"mixed")), scn: s });
     }
     // ---- the real remote is silent: a flood of foreign packets must not move the timeout events
     for i in 0..ctx.n(400, 12_000) {
@@ -547,7 +605,7 @@ pub fn run_case(c: &Case) -> Outcome {
     let after_disc = c.id.starts_with("afterdisc") || c.id.starts_with("silentflood");
     // the oracles that decide "the inputs the session delivers" (not valid once a player is dropped)
     let o = if after_disc { Oracles { c02: true, ..Default::default() } } else { Oracles { c01: true, c03: true, c02: true, c06: true, ..Default::default() } };
-    let mut st = InjState { n: 0, by_class: [0; 11], skipped_spoof_like: 0, no_base_packet: 0 };
+    let mut st = InjState { n: 0, by_class: [0; 12], skipped_spoof_like: 0, no_base_packet: 0 };
     let w = run_scn_hook(&c.scn, o, false, &mut |core, ni, t| inject_hook(core, ni, t, &mut st));
     let mut out = Outcome::new(world_desc(&w));
     absorb_obs(&mut out, &w);
@@ -754,7 +812,7 @@ pub fn check(ctx: &Ctx) -> i32 {
     extra.insert("classes".into(), json!(CLASS_NAMES));
     let meta = Meta {
         level: "fault_enumeration",
-        rule: "forged packets are built by mutating a copy of the last genuine packet already delivered on the victim's link (so that ack and gossip fields are stale and idempotent) and are put on the wire at the victim's ticks: wrong number of connection statuses (0, n-1, n+1, n+1000; optionally with hostile flags and an ack ahead of the truth), negative start frame (optionally together with disconnect_requested, a 'disconnected' status entry or an ack ahead: the packet must be dropped as a whole), payloads that are random bytes / exhaustive byte strings of length <= 2 / structure-aware mutations of the genuine payload up to 4 KiB / run-length bombs / valid encodings of frames of the wrong size, any packet type from an unknown address, any packet type with a foreign magic. Payloads that the harness's own decoder labels as well-formed spoofs (some frame has exactly the expected size) are not injected (no authentication: outside the property). Protocol states: Running on clean and lossy links (2-3 peers, 1-2 players per peer, windows 0/1/2/8), during the handshake (forged from scratch), after the sender was dropped (incl. exact replays), towards a spectator, and a flood of foreign packets while the real remote is silent; plus garbage/truncated/bit-flipped/length-bomb/oversize datagrams sent over loopback to the library's own UdpNonBlockingSocket (no panic, < 4 MiB allocated per receive call, well-formed messages still delivered). Every campaign runs in a child process under the counting allocator. Verdict: no panic/abort/refused allocation, peak live growth per call within the codec bound; C01/C03/C06 oracles keep holding; against the same scenario without injection: classes rejected before processing must leave request traces, events (with timestamps, per address), errors and states identical; payload classes (which legitimately refresh a resend timer, i.e. shift packet timing) must leave lifecycle/desync events, connection state and progress to the frame target identical, with floods on live links ending 2.5 s after they started so that 'valid traffic continues to be processed afterwards' is judged after the flood; handshakes still complete. Non-trivial: at least one forged packet was delivered to the victim's session. Distinct: case + trace hash.".into(),
+        rule: "forged packets are built by mutating a copy of the last genuine packet already delivered on the victim's link (so that ack and gossip fields are stale and idempotent) and are put on the wire at the victim's ticks: wrong number of connection statuses (0, n-1, n+1, n+1000; optionally with hostile flags and an ack ahead of the truth), negative start frame (optionally together with disconnect_requested, a 'disconnected' status entry or an ack ahead: the packet must be dropped as a whole), payloads that are random bytes / exhaustive byte strings of length <= 2 / structure-aware mutations of the genuine payload up to 4 KiB / run-length bombs / valid encodings of frames of the wrong size, any packet type from an unknown address, any packet type with a foreign magic (stale copies of genuine packets, and - class foreign-magic-stream-continuation - completely well-formed Input packets that continue the sender's stream with bogus frames, so that nothing but the magic number is wrong with them). Payloads that the harness's own decoder labels as well-formed spoofs (some frame has exactly the expected size) are not injected (no authentication: outside the property). Protocol states: Running on clean and lossy links (2-3 peers, 1-2 players per peer, windows 0/1/2/8), during the handshake (forged from scratch), after the sender was dropped (incl. exact replays), towards a spectator, towards a spectator whose host died and was dropped (the host's endpoint lingers in the Disconnected state), and a flood of foreign packets while the real remote is silent; plus garbage/truncated/bit-flipped/length-bomb/oversize datagrams sent over loopback to the library's own UdpNonBlockingSocket (no panic, < 4 MiB allocated per receive call, well-formed messages still delivered). Every campaign runs in a child process under the counting allocator. Verdict: no panic/abort/refused allocation, peak live growth per call within the codec bound; C01/C03/C06 oracles keep holding; against the same scenario without injection: classes rejected before processing must leave request traces, events (with timestamps, per address), errors and states identical; payload classes (which legitimately refresh a resend timer, i.e. shift packet timing) must leave lifecycle/desync events, connection state and progress to the frame target identical, with floods on live links ending 2.5 s after they started so that 'valid traffic continues to be processed afterwards' is judged after the flood; handshakes still complete. Non-trivial: at least one forged packet was delivered to the victim's session. Distinct: case + trace hash.".into(),
         assumptions: {
             let mut a = std_assumptions();
             a.push("UdpNonBlockingSocket is not in the simulated path; it is exercised separately with garbage datagrams over loopback".into());
